@@ -114,7 +114,11 @@ def run(run):
         t_ = q_.split()
         if a_.startswith("ok ") and abs(abs(geo.fx(t_[1])) - 180.0) < 1e-3 and abs(geo.fx(t_[2])) < 80.0 and int(t_[3]) >= 3:
             am.append(int(a_.split()[1]))
-    bulk.check(run, bulk.boundary_requests(run, antimeridian_cells=am), "cell_to_boundary (bulk)")
+    # (resolution-29 cells at the centres of the non-polar faces: one corner is the apex of the projection's triangles)
+    fc = core.impl_only(run, [f"cell_to_lonlat {spec.encode(0, f, ())}" for f in range(1, 11)])
+    fl = core.impl_only(run, [f"lonlat_to_cell {a_.split()[1]} {a_.split()[2]} 29" for a_ in fc if a_.startswith("ok ")])
+    frame = [int(a_.split()[1]) for a_ in fl if a_.startswith("ok ")]
+    bulk.check(run, bulk.boundary_requests(run, antimeridian_cells=am, frame_cells=frame), "cell_to_boundary (bulk)")
     run.rule = ("rings with 65535..70000 (thorough: ..2097152) segments per edge on resolution 28/29 and random cells, and of more than 2^20 points on cells that straddle the antimeridian (point count and text hash vs the model); cells: lookups on the antimeridian and at / next to both poles at every resolution, cells 1e-6 .. 9e-3 degrees from a pole on the antimeridian and on the internal frame's branch cut (r = 10..29), all base cells, quintants, random cells to r=29; "
                 "x closed/open ring x subdivision n in {1, 2|3|7, 5|16|64, default}; checks: length, closure, finite coordinates, latitude range, counter-clockwise (positive spherical area), "
                 "centre inside (independent winding test), 180-degree longitude window unless the cell touches a pole, corner points identical across n; "
